@@ -104,18 +104,24 @@ def binSearch (cmp : Nat → Ordering) : Nat → Nat → Nat → Nat ⊕ Nat
       | .eq => .inl mid
     else .inr left
 
-/-- mirrors: BlockAddrStore::binary_search_ord + bisect_for_ord: block id holding `ord` -/
-def Store.locateOrd (s : Store) (ord : Nat) : Nat :=
-  let firstOrdOf := fun id => match s.get id with | some a => a.firstOrd | none => 0
-  match binSearch (fun g => compare (firstOrdOf (g * Gen.STORE_BLOCK_LEN)) ord) (s.numGroups + 1) 0 s.numGroups with
-  | .inl g => g * Gen.STORE_BLOCK_LEN
+/-- mirrors: BlockAddrStore::binary_search_ord + bisect_for_ord, over abstract accessors:
+`B` = STORE_BLOCK_LEN, `G` = number of store blocks, `bl g` = `block_len` of store block `g`
+(its further addresses), `f id` = first ordinal of block `id`. The `.inl` branch of the outer
+search is the fast path: `ord` is exactly the first ordinal of a store block, whose block id is
+`g * B` (not `g`). -/
+def locateOrdGen (B G : Nat) (bl : Nat → Nat) (f : Nat → Nat) (ord : Nat) : Nat :=
+  match binSearch (fun g => compare (f (g * B)) ord) (G + 1) 0 G with
+  | .inl g => g * B
   | .inr g =>
-    let g := g - 1
-    let m := parseMeta (s.metas.drop (g * META_SIZE))
-    -- inner search over the `blockLen` further blocks of the group
-    match binSearch (fun i => compare (firstOrdOf (g * Gen.STORE_BLOCK_LEN + i + 1)) ord) (m.blockLen + 1) 0 m.blockLen with
-    | .inl i => g * Gen.STORE_BLOCK_LEN + i + 1
-    | .inr i => g * Gen.STORE_BLOCK_LEN + i
+    match binSearch (fun i => compare (f ((g - 1) * B + i + 1)) ord) (bl (g - 1) + 1) 0 (bl (g - 1)) with
+    | .inl i => (g - 1) * B + i + 1
+    | .inr i => (g - 1) * B + i
+
+/-- block id holding `ord`, from the store bytes -/
+def Store.locateOrd (s : Store) (ord : Nat) : Nat :=
+  locateOrdGen Gen.STORE_BLOCK_LEN s.numGroups
+    (fun g => (parseMeta (s.metas.drop (g * META_SIZE))).blockLen)
+    (fun id => match s.get id with | some a => a.firstOrd | none => 0) ord
 
 /-! ### the writer side of one value (for the codec theorem) -/
 
